@@ -193,7 +193,7 @@ func SRID(r *prng.Rand) int {
 
 // Gen draws one geometry model of type t and layout l.
 func (c GenCfg) Gen(r *prng.Rand, t string, l int, depth int) *Geom {
-	m := &Geom{T: t, L: l, How: r.Intn(3)}
+	m := &Geom{T: t, L: l, How: r.Intn(6)}
 	switch t {
 	case Pt:
 		if r.Chance(c.PEmpty) {
